@@ -3895,10 +3895,40 @@ def deinterpolate_logging_args(source: str) -> str:
             )
 
 
+def _may_change_item(
+    mapping: ast.AST, key: ast.AST, nodes: Iterable[ast.AST], harmless_functions: Collection[str]
+) -> bool:
+    """May mapping[key] have another value after some of the code in nodes than before it: is the
+    mapping or the key assigned, is an item or attribute of the mapping stored or deleted, is a
+    method of it called, or is it passed to a function that is not one of harmless_functions?"""
+    scope = ast.Module(body=list(nodes), type_ignores=[])
+    mapping_names = _names_in(mapping)
+    all_names = tuple(mapping_names | _names_in(key))
+    if any(True for _ in core.walk(scope, ast.Name(id=all_names, ctx=(ast.Store, ast.Del)))):
+        return True
+    store_template = (
+        ast.Attribute(ctx=(ast.Store, ast.Del)),
+        ast.Subscript(ctx=(ast.Store, ast.Del)),
+    )
+    if any(_root_name(node) in mapping_names for node in core.walk(scope, store_template)):
+        return True
+    for call in core.walk(scope, ast.Call):
+        if isinstance(call.func, ast.Name) and call.func.id in harmless_functions:
+            continue
+        if isinstance(call.func, ast.Attribute) and _root_name(call.func.value) in mapping_names:
+            return True
+        for arg in itertools.chain(call.args, (keyword.value for keyword in call.keywords)):
+            if _root_name(arg) in mapping_names and not isinstance(arg, ast.Subscript):
+                return True
+
+    return False
+
+
 @processing.fix
 def _keys_to_items(source: str) -> Iterable[Tuple[ast.AST, ast.AST]]:
     root = core.parse(source)
     used_names = {name for _, name in _iter_identifier_mentions(root)}
+    harmless_functions = _harmless_functions(root)
     comprehension_template = ast.comprehension(
         target=core.Wildcard("target", object),
         iter=ast.Call(
@@ -3932,6 +3962,13 @@ def _keys_to_items(source: str) -> Iterable[Tuple[ast.AST, ast.AST]]:
 
         if any(isinstance(s.ctx, (ast.Store, ast.Del)) for s in value_target_subscripts):
             continue  # d[k] = ... must stay a write to the dict
+
+        # The item from d.items() is the value that d[k] had when the iteration started
+        evaluated = [child for child in ast.iter_child_nodes(node) if child not in node.generators]
+        if _may_change_item(
+            value, target, evaluated + node.generators[0].ifs, harmless_functions
+        ):
+            continue
 
         node_target_name = f"{core.unparse(value)}_{core.unparse(target)}"
         node_target_name = re.sub("[^a-zA-Z]", "_", node_target_name)
@@ -3999,6 +4036,7 @@ def _items_to_values(source: str) -> Iterable[Tuple[ast.AST, ast.AST]]:
 def _for_keys_to_items(source: str) -> Iterable[Tuple[ast.AST, ast.AST]]:
     root = core.parse(source)
     used_names = {name for _, name in _iter_identifier_mentions(root)}
+    harmless_functions = _harmless_functions(root)
     template = ast.For(
         target=core.Wildcard("target", object),
         iter=ast.Call(
@@ -4025,6 +4063,10 @@ def _for_keys_to_items(source: str) -> Iterable[Tuple[ast.AST, ast.AST]]:
 
         if any(isinstance(s.ctx, (ast.Store, ast.Del)) for s in value_target_subscripts):
             continue  # d[k] = ... must stay a write to the dict
+
+        # The item from d.items() is the value that d[k] had when the iteration started
+        if _may_change_item(value, target, node.body + node.orelse, harmless_functions):
+            continue
 
         node_target_name = f"{core.unparse(value)}_{core.unparse(target)}"
         node_target_name = re.sub("[^a-zA-Z]", "_", node_target_name)
